@@ -12,9 +12,9 @@ P = Property('C01', 'other',
              'Contracts on the real AST of the booking functions, over the abstract view Den(F) of the ledger equations: Sector.AddCashFlow adds exactly the '
              'signed term to F (C06); Model._GenerateRegisteredCashFlows books -x on the source and +x (same zone) or +x*cross rate (other zone, through '
              '_SendMoney / _ReceiveMoney whose FX positions absorb the difference) on the target (C07); Market._GenerateTermsLowLevel books the outflow '
-             '-DEM on every demander it aggregates (C04); and the zone lemma: if construction leaves every ledger at LAG_F and every booking step adds '
-             'entries that sum to zero, the zone total stays at the sum of the lagged stocks (induction over the steps). TaxFlow, dividend, interest, '
-             'remittance and supplier inflows are not under contract: bounded on solved models, where two topologies are known to fail (F8, F22).',
+             '-DEM on every demander it aggregates (C04); TaxFlow._GenerateEquations books -T on exactly the taxable sectors of the zone, one term each; and the zone lemma: if construction leaves every ledger at LAG_F and every booking step adds '
+             'entries that sum to zero, the zone total stays at the sum of the lagged stocks (induction over the steps). That the expression credited to the tax '
+             'receiver is what the payers were debited, dividend, remittance and supplier inflows are not under contract: bounded on solved models, where two topologies are known to fail (F8, F22).',
              'contract-based deductive verification: VCs generated from the real AST (pyvc), z3/cvc5; bounded model checks',
              design_ref='DESIGN.md section 6, C01')
 P.trust('contracts and assumptions of C06, C07, C04 (see there)', 'T-STA: the value of a flow term text is the value of the flow variable with its sign')
